@@ -602,7 +602,10 @@ def match(exp, got, path="", optional_cast=False):
             if r is None or not optional_cast:
                 return r
             # the outer Cast may be the implicit one, wrapped around the explicit cast
-            return None if match(exp, gch[0], path + "/(implicit Cast)") is None else r
+            r2 = match(exp, gch[0], path + "/(implicit Cast)")
+            if r2 is None:
+                return None
+            return r2 if r2[0].count("/") > r[0].count("/") else r
         if optional_cast:
             return match(exp, gch[0], path + "/(implicit Cast)")
         return (path, show(exp), show(got))
@@ -618,15 +621,18 @@ def match(exp, got, path="", optional_cast=False):
 
 
 def _check_name(exp_text, got_text, path):
-    both = exp_text + " " + got_text
-    last = path.rsplit("/", 1)[-1]
-    if "Annotated" in both.split(" ")[0] or "Annotations" in last or both.startswith("(Annotated") \
-            or got_text.startswith("(Annotated"):
+    """a check name that separates the signatures of the known defects from everything else"""
+    nested = path.count("/") > 0
+    if got_text.startswith("(Annotated") and not exp_text.startswith("(Annotated"):
+        return "annotation_leaked_from_block" if not nested else "annotation_attachment"
+    if exp_text.startswith("(Annotated") and not got_text.startswith("(Annotated"):
+        return "annotation_dropped_in_block" if nested else "annotation_attachment"
+    if "Annotations" in path.rsplit("/", 1)[-1] or (exp_text.startswith("(Annotated") and got_text.startswith("(Annotated")):
         return "annotation_attachment"
+    if exp_text.startswith("(Bin.Power") and got_text.startswith("(Bin.Concat"):
+        return "power_stored_as_concat"
     if exp_text.startswith(("(Bin.", "(Un.", "Bin.", "Un.")) and got_text.startswith(("(Bin.", "(Un.", "Bin.", "Un.")):
         return "operator_identity"
-    if exp_text.startswith("(Bin.Power ") and got_text.startswith("(Cast (Bin.Concat "):
-        return "operator_identity"          # `**` mapped to concatenation (typed ToDo, hence wrapped in a cast)
     if exp_text.startswith(("Lit.", "(Lit.")) and got_text.startswith(("Lit.", "(Lit.")):
         return "literal_class"
     if exp_text.startswith(("Pragma", "(Pragma")):
@@ -760,6 +766,27 @@ GUARDS = {
     "F08b": guard_power,                    # `**` -> ConcatenationOp
     "nested-annotation": guard_nested_annotation,   # pending annotations leak to the enclosing top-level stmt
 }
+
+# check name -> the guard that must hold for the failure to be the known defect
+KNOWN_SIGNATURES = {
+    "if_branch_roles": "F07",
+    "power_stored_as_concat": "F08b",
+    "annotation_leaked_from_block": "nested-annotation",
+    "annotation_dropped_in_block": "nested-annotation",
+}
+
+
+def attribute(src, ast_line, failures):
+    """split `failures` into (known, residual): a failure is known iff its check name is the
+    signature of a known defect and that defect's guard holds on this program"""
+    known, residual = [], []
+    for f in failures:
+        g = KNOWN_SIGNATURES.get(f[1])
+        if g is not None and GUARDS[g](src, ast_line):
+            known.append((g,) + tuple(f))
+        else:
+            residual.append(f)
+    return known, residual
 
 
 # =============================================================================== tokenizer
@@ -1280,10 +1307,10 @@ def validate(seed=1, n=2000, verbose=True, relayouts=2, renames=1, max_splits=6)
             fails = check(p, a, s)
             if fails:
                 res["c06_fail"] += 1
-                gs = sorted(g for g, f in GUARDS.items() if f(p, a))
-                if not gs:
-                    res["c06_unguarded"].append((p, fails[:2]))
-                for g in gs:
+                known, residual = attribute(p, a, fails)
+                if residual:
+                    res["c06_unguarded"].append((p, residual[:2]))
+                for g in sorted({k[0] for k in known}):
                     res["c06_by_guard"][g] = res["c06_by_guard"].get(g, 0) + 1
         if not a.startswith("(Program"):
             continue
